@@ -159,3 +159,20 @@ Theorem C12_live_iteration_refuted :
     /\ r_out (recv_sec c secs data) = Deleted FAILED_SEC.
 Proof. exact live_iteration_refuted. Qed.
 Print Assumptions C12_live_iteration_refuted.
+
+(** The detached-payload rule of [decode_msg]: the verdict of a security operation is computed on the target
+    block's current data; a payload / ciphertext attached inside the COSE structure never takes its place
+    (so a target that differs from what the security source protected cannot be covered up by attaching
+    the original).  [open] is the cryptographic check, any function. *)
+Theorem C12_verdict_ignores_payload_slot :
+  forall (open : N -> N -> option N) (data : datamap) (t auth : N) (slot1 slot2 : option N),
+    target_verdict open data t (mkMsg auth slot1) = target_verdict open data t (mkMsg auth slot2).
+Proof. exact verdict_ignores_slot. Qed.
+Print Assumptions C12_verdict_ignores_payload_slot.
+
+Theorem C12_verdict_on_current_target_data :
+  forall (open : N -> N -> option N) (data : datamap) (t : N) (m : cose_msg),
+    target_verdict open data t m =
+    match open (m_auth m) (btsd_of t data) with Some p => TOk p | None => TFail FAILED_SEC end.
+Proof. exact verdict_on_current_data. Qed.
+Print Assumptions C12_verdict_on_current_target_data.
